@@ -390,8 +390,16 @@ void SharedMutexCase(Ctx& ctx) {
   M m;
   auto pool = yaclib::MakeFairThreadPool(static_cast<std::uint64_t>(n));
 
+  // some coroutines never hop to the pool: they run on the inline executor, i.e. they start on the creating fiber and are
+  // later resumed *inside* the unlock call of whoever hands the lock over to them
+  std::vector<char> stay_inline(static_cast<std::size_t>(k), 0);
+  for (auto& si : stay_inline) {
+    si = ctx.rng.Below(3) == 0 ? 1 : 0;
+  }
   auto body = [&](int id) -> yaclib::Future<> {
-    co_await yaclib::On(*pool);
+    if (stay_inline[static_cast<std::size_t>(id)] == 0) {
+      co_await yaclib::On(*pool);
+    }
     for (auto& rd : plan[static_cast<std::size_t>(id)]) {
       w.requests.fetch_add(1, kRlx);
       switch (rd.form) {
